@@ -12,6 +12,7 @@ LINES_PER_OP = {
     "DbDriver": lambda op: 1 if op.get("op") in ("snap", "states") else 2,
     "SchedDriver": lambda op: 1,
     "KvsmDriver": lambda op: 1,
+    "FsDriver": lambda op: 1,
 }
 
 
@@ -62,6 +63,13 @@ CHECKS = {
                      "args": {"quick": ["-n", "25"], "thorough": ["-n", "400"]}}],
         "rule": "the three real test state machines (KVTest, ConcurrentKVTest, DiskKVTest on vfs.NewStrictMem), two replicas per sequence: batches of 1..8 updates over key/value alphabets incl. the empty string, multi-byte UTF-8, JSON-special characters and (on-disk machine) binary strings, applied to both replicas; replica 1 additionally gets lookups / Sync / PrepareSnapshot / SaveSnapshot / Close+Open, and is replaced at random points by a fresh replica restored from replica 0's snapshot; after every step every key is looked up on both replicas and both hashes are taken (compared with the model as equality classes); evaluations = protocol operations; non-trivial = sequences",
         "assumptions": ["md5 collisions ignored", "pebble: a synced batch is atomic and durable (C16 covers crashes)", "a user key equal to the on-disk machine's applied-index key is outside the model"],
+    },
+    "C16": {
+        "lean": ["DrummerVerif.Props.C16"],
+        "streams": [{"cmd": "diskcrash", "driver": "FsDriver", "sections": None, "eval_re": r"^case:(crash_point|double_crash_point)", "timeout": 3000,
+                     "args": {"quick": ["-n", "2", "-double", "3"], "thorough": ["-n", "12", "-double", "400"]}}],
+        "rule": "DiskKVTest on a counting wrapper around vfs.NewStrictMem: EVERY mutating / syncing file-system operation index of each workload (workload 0 = first open; 3 updates; Sync; recovery from a foreign snapshot; 2 updates; Close+Open; 1 update; further workloads vary each part by seed) is a crash point (from that operation on nothing reaches stable storage, then ResetToSyncedState: all unsynced data and directory entries are lost), followed by reopen and the check 'applied index >= last acknowledged, data = updates up to that index on top of the last installed snapshot'; double crashes: for selected first crash points, every operation index of the recovering Open is a second crash point; the non-pebble part of the real trace of first open / snapshot recovery / reopen is compared with the model's sequences; evaluations = crash points (single + double), all distinct, exhaustive per workload",
+        "assumptions": ["pebble: a synced batch is atomic and durable when it returns; open after a crash recovers an acknowledged prefix (crash points inside pebble are covered by the enumeration only)", "vfs.NewStrictMem is the definition of a crash"],
     },
     "C06": {
         "lean": ["DrummerVerif.Props.C06"],
